@@ -1371,10 +1371,41 @@ func c19PathResult(ip *IterPath, idx int) ssa.Value {
 	if len(ip.Blocks) == 0 {
 		return nil
 	}
-	// a `break` block lies outside the natural loop and jumps on: follow unconditional jumps to the return
+	// a `break` block lies outside the natural loop and jumps on: follow unconditional jumps to the return - and
+	// a branch on a search result (`i := find(); if i < 0 { return false }`) whose outcome is fixed by the value the
+	// result received on this very path
 	blocks := append([]*ssa.BasicBlock{}, ip.Blocks...)
 	last := blocks[len(blocks)-1]
 	for steps := 0; steps < 8; steps++ {
+		if iff, isIf := last.Instrs[len(last.Instrs)-1].(*ssa.If); isIf && len(last.Succs) == 2 && (len(blocks) > len(ip.Blocks) || ip.End == "exit") {
+			x, y, op, isCmp := CmpFact(iff.Cond, true)
+			if !isCmp {
+				break
+			}
+			if _, isPhi := x.(*ssa.Phi); !isPhi {
+				break
+			}
+			holds, known := c19CmpDecide((&IterPath{Blocks: blocks, End: "partial"}).Resolve(x), op, y)
+			if !known {
+				break
+			}
+			next := last.Succs[1]
+			if holds {
+				next = last.Succs[0]
+			}
+			onPath := false
+			for _, b := range blocks {
+				if b == next {
+					onPath = true
+				}
+			}
+			if onPath {
+				break
+			}
+			last = next
+			blocks = append(blocks, last)
+			continue
+		}
 		if _, isJ := last.Instrs[len(last.Instrs)-1].(*ssa.Jump); !isJ || len(last.Succs) != 1 {
 			break
 		}
@@ -2366,6 +2397,9 @@ func c19NarrowIndex(v ssa.Value, gs []Guard) ssa.Value {
 func c19BoolLeaves(fn *ssa.Function, idx int) []retLeaf {
 	var out []retLeaf
 	for _, lf := range retLeaves(fn, idx) {
+		// (a constant returned under a test of a search result - `if i < 0 { return false }; return true` - is
+		// returned where the selected alternatives' edges were taken)
+		lf.Guards = c19SentinelGuards(lf.Guards)
 		x, y, op, isCmp := CmpFact(lf.Val, true)
 		ph, isPhi := x.(*ssa.Phi)
 		if !isCmp || !isPhi {
